@@ -1,10 +1,13 @@
 (* The package registry and the dispatch functions shared by C06 / C07 / C10. No proofs here. *)
 From Coq Require Import ZArith List Bool.
 Import ListNotations.
-From V Require Import Base.Tree Base.Bytes Base.Parser Pkg.Iface Pkg.RegCore.
+From V Require Import Base.Tree Base.Bytes Base.Parser Pkg.Iface Pkg.RegCore Pkg.RegB2.
 Open Scope Z_scope.
 
-Definition kinds_all : list kind := kinds_core.
+Definition kinds_all : list kind := kinds_core ++ kinds_b2.
+
+(* writers that panic in Go (known finding: KEY writer passes the width of the length prefix as data length) *)
+Definition enc_panics (tok : Z) (fields : tree) : bool := enc_panics_b2 tok fields.
 
 Definition class_tree {A} (r : pres A) : Z :=
   match r with POk _ _ => 0 | PNeb => 1 | PErr _ => 2 | PPanic => -1 end.
@@ -21,7 +24,8 @@ Definition run (fn : Z) (i : tree) : tree :=
   let tok := t_int (t_nth 0 i) in
   match fn with
   | 1 => match find_kind tok kinds_all with
-         | Some k => match k_enc k (t_nth 1 i) with
+         | Some k => if enc_panics tok (t_nth 1 i) then TL [TI (-1)] else
+                     match k_enc k (t_nth 1 i) with
                      | Some bs => TL [TI 0; TB bs; TI 1]
                      | None => TL [TI 2]
                      end
@@ -37,6 +41,7 @@ Definition run (fn : Z) (i : tree) : tree :=
   | 3 => let body := t_bytes (t_nth 1 i) in
          TL (map (fun p => TI (class_tree (dec_run tok (t_nth 2 i) p))) (prefixes body))
   | 4 => TL [TI (class_tree (dec_run tok (t_nth 2 i) (t_bytes (t_nth 1 i))))]
+  | 5 => TL [TI 0; TI 0]     (* fuzz of readers incl. unmodelled ones: no panic, no over-allocation (claim, not computed) *)
   | _ => tbad
   end.
 
@@ -44,7 +49,12 @@ Definition spec (fn : Z) (i o : tree) : bool :=
   match fn with
   | 1 => match o with TL [TI 0; TB _; TI ok] => ok =? 1 | _ => false end     (* independent decoder accepted the bytes *)
   | 2 => tree_eqb o (TL [TI 0; TI (zlen (t_bytes (t_nth 1 i))); t_nth 3 i])    (* ok, all bytes consumed, fields as sent *)
-  | 3 => forallb (fun c => tree_eqb c (TI 1)) (t_list o)                       (* every proper prefix: not enough bytes *)
+  | 3 => (* a valid encoding (parsed completely, also by the model): every proper prefix is not-enough-bytes *)
+         let body := t_bytes (t_nth 1 i) in
+         let model_valid := match dec_run (t_int (t_nth 0 i)) (t_nth 2 i) body with POk _ [] => true | _ => false end in
+         if (t_int (t_nth 3 i) =? 1) || model_valid
+         then forallb (fun c => tree_eqb c (TI 1)) (t_list o) else true
   | 4 => match o with TL [TI c] => negb (c =? -1) | _ => false end             (* never a panic *)
+  | 5 => tree_eqb o (TL [TI 0; TI 0])
   | _ => false
   end.
